@@ -24,7 +24,7 @@ def gen(tier, rng):
     n = 900 if tier == "quick" else 15000
     for _ in range(n):
         nd = rng.choice([1, 2, 2, 3, 3, 4])
-        kind = rng.choice(["lin", "lin", "lin", "coupled", "coupled", "tan", "cube", "cube", "nonfits"])
+        kind = rng.choice(["lin", "lin", "coupled", "coupled", "cd", "tan", "cube", "cube", "nonfits"])
         if kind in ("tan",) and nd < 2:
             nd = 2
         shape = [rng.choice([4, 6, 8, 12]) for _ in range(nd)]      # array order
@@ -87,6 +87,12 @@ def _base_wcs(kind, shape, rs):
         w.wcs.crpix = [float(x) for x in rng.choice([1, 2, 0.5, 3.5], size=nd)]
         w.wcs.cdelt = [float(x) for x in rng.choice([1, 2, 0.5, 4], size=nd)]
         w.wcs.crval = [float(x) for x in rng.randint(0, 50, size=nd)]
+        if kind == "cd":
+            cd = np.diag([float(x) for x in rng.choice([1, 2, 0.5], size=nd)])
+            if nd >= 2:
+                i, j = rng.choice(nd, size=2, replace=False)
+                cd[i, j] = rng.choice([0.5, -0.5, 1.0])
+            w.wcs.cd = cd
         if kind == "coupled" and nd >= 2:
             pc = np.eye(nd)
             i, j = rng.choice(nd, size=2, replace=False)
@@ -143,7 +149,7 @@ def _read_chain(top):
 
 
 def _hdr(w):
-    return {"crpix": [Fr(float(x)) for x in w.wcs.crpix], "cdelt": [Fr(float(x)) for x in w.wcs.cdelt],
+    return {"crpix": [Fr(float(x)) for x in w.wcs.crpix], "cdelt": [Fr(float(x)) for x in w.wcs.get_cdelt()],
             "pc": [[Fr(float(x)) for x in r] for r in w.wcs.get_pc()], "naxis": [int(x) for x in w._naxis]}
 
 
